@@ -533,7 +533,7 @@ class C10(Prop):
         for i in range(2 * len(gen.ALL)):
             kind = gen.ALL[i % len(gen.ALL)]
             nch = rng.randint(2, 3)
-            cfg = gen.gen_cfg(rng, kinds=[kind], nch=nch, max_chunk=300)
+            cfg = small_fftout_chunk(rng, gen.gen_cfg(rng, kinds=[kind], nch=nch, max_chunk=300))
             sg = "r%d" % rng.randint(0, 999)
             ops = [cfg.new(0)] + [f"0 proc - n m {sg}"] * rng.randint(1, 14)
             reset_at = len(ops)
@@ -2525,6 +2525,21 @@ class C06(Prop):
         return out
 
 
+def small_fftout_chunk(rng, cfg):
+    """FftFixedOut with an output chunk of about a third of one block: the carried-over frames and the blocks needed per call
+    change from call to call (0, 1, 0, 1, ...), which is where per-call bookkeeping shows"""
+    if cfg.kind != "fftout":
+        return cfg
+    p = cfg.line.split()
+    if cfg.ro // math.gcd(cfg.ri, cfg.ro) < 6 or cfg.ro // math.gcd(cfg.ri, cfg.ro) > 1000:
+        cfg.ri, cfg.ro = rng.choice([(44100, 48000), (48000, 44100), (147, 160)])
+        p[2], p[3] = str(cfg.ri), str(cfg.ro)
+    unit = cfg.ro // math.gcd(cfg.ri, cfg.ro)
+    p[4], p[5] = str(max(2, unit // 3 + rng.randint(0, unit // 6))), "1"
+    cfg.line, cfg.chunk, cfg.sub = " ".join(p), int(p[4]), 1
+    return cfg
+
+
 # ------------------------------------------------------------------------------------------ C11
 @register
 class C11(Prop):
@@ -2548,6 +2563,8 @@ class C11(Prop):
             if i < len(forced):
                 nch, kinds = rng.randint(2, 4), [forced[i][0]]
             cfg = gen.gen_cfg(rng, kinds=kinds, nch=nch, max_chunk=200, probe=rng.random() < 0.6)
+            if i < len(forced):
+                cfg = small_fftout_chunk(rng, cfg)
             mask = "".join(rng.choice("01") for _ in range(nch))
             if rng.random() < 0.08:
                 mask = "0" * nch
